@@ -287,3 +287,60 @@ def obligations(ctx, cfg):
     for v in ('AttachSubscription', 'RemoveSubscription', 'Delete', 'PublishMessages'):
         obs.append(TopicReceiveDropped(ctx, v))
     return obs
+
+
+class PullAbandonedAfterWakeup(Obligation):
+    id = 'C16.c-pull-abandoned-after-wakeup'
+    tier = 'T3'
+    desc = ('Pull handler (return_immediately = false) abandoned at any await: once it has consumed a wake-up of the subscription it does not suspend again before '
+            'its PullMessages request is in the mailbox - a wake-up taken by a consumer that then goes away would otherwise be lost for everybody '
+            '(the mailbox has room: a full mailbox is the known window)')
+    bounds = {'suspensions': '<= 2', 'mailbox': 'has room (sends do not pend)', 'subscriptions': 1, 'select! start index': 0}
+    unroll = 6
+    allow_out_of_bound = True
+
+    def __init__(self, ctx):
+        install_tokens(ctx)
+
+    def body(self, ip, p):
+        ctx = ip.ctx
+        from props.service import sym_managers, proto, request, start_handler
+        from props.C10 import typed_reply
+        from models_core import ok
+        ctx.on_enqueue = typed_reply
+        h = sym_managers(ctx, p)
+        p.assume(h['subs'][0][0])
+        stok = h['subs'][0][1]
+        U = ctx.tok_ufs
+        regname = mk(ctx, 'SubscriptionName', project_id=StrTok(U['sub_proj'](stok)), subscription_id=StrTok(U['sub_id'](stok)))
+        ip.hooks[r'^parse_subscription_name$'] = lambda ip_, callee, args: (ok(regname),)
+        mx = p.fresh('max_messages')
+        p.assume(z3.And(mx >= 1, mx < (1 << 31)))
+        req = proto(ctx, 'PullRequest', subscription=StrTok(p.fresh('name_field')), return_immediately=S(z3.BoolVal(False), 'bool'), max_messages=S(mx, 'i32'))
+        fut = start_handler(ip, p, 'subscriber', 'pull', h['subscriber'], request(req))
+        p.no_pend = ('mpsc.send',)
+        p.select_in_order = True
+        susp = []
+        try:
+            res, k = run_async(ip, p, fut, budget=2, on_suspend=lambda i, log: susp.append(list(log)), max_polls=6)
+        except OutOfBound:
+            res = None
+        return {'susp': susp, 'ret': res}
+
+    def post(self, ip, p, res):
+        out = []
+        for i, log in enumerate(res['susp']):
+            enq = [j for j, e in enumerate(log) if e[0] == 'enqueue']
+            woke = [j for j, e in enumerate(log) if e[0] == 'ready' and e[1] == 'notified']
+            pending_wake = bool(woke) and (not enq or woke[-1] > enq[-1])
+            out.append(Claim('suspension %d: no consumed wake-up is waiting for its pull to be sent' % (i + 1), not pending_wake))
+        out.append(Cover('suspended after a wake-up had been consumed and its pull sent',
+                         any(any(e[0] == 'ready' and e[1] == 'notified' for e in log) for log in res['susp'])))
+        return out
+
+
+_obligations_c16d = obligations
+
+
+def obligations(ctx, cfg):
+    return _obligations_c16d(ctx, cfg) + [PullAbandonedAfterWakeup(ctx)]
